@@ -12,6 +12,8 @@
 (*  volatile    latest (chain.latestBlock), future (futureBlocks LRU,      *)
 (*              keyed by parent), verified (verifiedBlocks LRU),           *)
 (*              pending (tx pool's received container),                    *)
+(*              cache (topBlocks LRU in front of the height index: block,  *)
+(*              None = cached "no block at this height", Miss = no entry), *)
 (*              todo (the micro-operations still to run in the current     *)
 (*              call: the code's program counter), res (call result).      *)
 (*                                                                         *)
@@ -24,6 +26,7 @@
 EXTENDS Integers, Sequences, FiniteSets, TLC
 
 None == 99
+Miss == 97          \* height not in the topBlocks LRU (None in the LRU = a cached "no block")
 
 (* A tree: function over 1..N of [parent, height, tqn, pv, rank, txs];      *)
 (* block 0 is genesis.                                                      *)
@@ -56,7 +59,11 @@ InitState(t) ==
   [hashDB |-> {0}, hidx |-> [h \in 0..(MaxH(t) + 1) |-> IF h = 0 THEN 0 ELSE None],
    vidx |-> {0}, headRec |-> 0, addMark |-> None, rmMark |-> None, stateDisk |-> {0},
    executed |-> {}, latest |-> 0, future |-> [i \in Ids0(t) |-> None], verified |-> {},
-   pending |-> {}, todo |-> <<>>, res |-> "none", fork |-> <<>>, sub |-> "none"]
+   pending |-> {}, todo |-> <<>>, res |-> "none", fork |-> <<>>, sub |-> "none",
+   cache |-> [h \in 0..(MaxH(t) + 1) |-> Miss]]
+
+(* a height lookup through the cache: QueryBlockHeaderByHeight(h, true) *)
+Lookup(s, h) == IF s.cache[h] # Miss THEN s.cache[h] ELSE s.hidx[h]
 
 (* AddBlockOnChain(b): consensusVerify, then addBlockOnChain under the lock *)
 Begin(t, s, b) ==
@@ -125,7 +132,8 @@ Step(t, s) ==
     [] op[1] = "PutHeight"   -> [s EXCEPT !.hidx[Hgt(t, b)] = b, !.todo = rest]
     [] op[1] = "CommitState" -> [s EXCEPT !.stateDisk = @ \cup {b}, !.todo = rest]
     [] op[1] = "PutVerify"   -> [s EXCEPT !.vidx = @ \cup {Hgt(t, b)}, !.todo = rest]
-    [] op[1] = "MarkExec"    -> [s EXCEPT !.executed = @ \cup TxsOf(t, b), !.pending = @ \ TxsOf(t, b), !.todo = rest]
+    [] op[1] = "MarkExec"    -> [s EXCEPT !.executed = @ \cup TxsOf(t, b), !.pending = @ \ TxsOf(t, b), !.todo = rest,
+                                         !.cache[Hgt(t, b)] = b]            \* + topBlocks.Add
     [] op[1] = "PutHead"     -> [s EXCEPT !.headRec = b, !.latest = b, !.todo = rest]
     [] op[1] = "EraseAdd"    -> [s EXCEPT !.addMark = None, !.todo = rest]
     [] op[1] = "Callback"    -> IF s.future[b] # None
@@ -134,7 +142,8 @@ Step(t, s) ==
     [] op[1] = "MarkRm"      -> [s EXCEPT !.rmMark = b, !.todo = rest]
     [] op[1] = "DelHash"     -> [s EXCEPT !.hashDB = @ \ {b}, !.verified = @ \ {b}, !.todo = rest]
     [] op[1] = "DelHeight"   -> [s EXCEPT !.hidx[Hgt(t, b)] = None, !.todo = rest]
-    [] op[1] = "DelVerify"   -> [s EXCEPT !.vidx = @ \ {Hgt(t, b)}, !.todo = rest]
+    [] op[1] = "DelVerify"   -> [s EXCEPT !.vidx = @ \ {Hgt(t, b)}, !.todo = rest,
+                                         !.cache[Hgt(t, b)] = Miss]         \* + topBlocks.Remove
     [] op[1] = "HeadPre"     -> IF Par(t, b) \in s.hashDB
                                   THEN [s EXCEPT !.headRec = Par(t, b), !.latest = Par(t, b), !.todo = rest]
                                   ELSE \* remove() returns false: the rest of remove() is skipped, the mark stays
@@ -157,22 +166,33 @@ Step(t, s) ==
     [] op[1] = "RecRm"       -> IF s.rmMark # None
                                   THEN [s EXCEPT !.todo = RemoveOps(s.rmMark) \o << <<"EraseRm", 0, 0>> >> \o rest]
                                   ELSE [s EXCEPT !.todo = rest]
-
-RECURSIVE RunAll(_, _)
-RunAll(t, s) == IF s.todo = <<>> THEN s ELSE RunAll(t, Step(t, s))
+    [] op[1] = "BuildCache"  ->     \* initBlockChain after the recovery: heights below the head, the head itself left out
+         [s EXCEPT !.todo = rest,
+                   !.cache = [h \in DOMAIN s.cache |-> IF h < Hgt(t, s.latest) THEN s.hidx[h] ELSE Miss]]
 
 RECURSIVE RunK(_, _, _)
 RunK(t, s, k) == IF s.todo = <<>> \/ k = 0 THEN s ELSE RunK(t, Step(t, s), k - 1)
 
-RECURSIVE StepsToEnd(_, _)
-StepsToEnd(t, s) == IF s.todo = <<>> THEN 0 ELSE 1 + StepsToEnd(t, Step(t, s))
+(* Every call is run with a bound on its micro-operations.  From the states the model itself
+   reaches a call ends long before it (BlockStoreMC checks CallsEnd); a trace monitor, however,
+   starts calls from OBSERVED stores, and from an inconsistent store the recursion of
+   addBlockOnChain need not end (the real node then recurses until it dies): there the run
+   stops with todo # <<>>, which the monitor reports as "Model.diverges". *)
+Fuel == 400
+RunAll(t, s) == RunK(t, s, Fuel)
+Ended(s) == s.todo = <<>>
+
+RECURSIVE StepsF(_, _, _)
+StepsF(t, s, k) == IF s.todo = <<>> \/ k = 0 THEN 0 ELSE 1 + StepsF(t, Step(t, s), k - 1)
+StepsToEnd(t, s) == StepsF(t, s, Fuel)
 
 (* process death: volatile state is lost; then initBlockChain + ensureChainConsistency *)
 CrashState(s) ==
   [s EXCEPT !.latest = s.headRec, !.future = [i \in DOMAIN s.future |-> None], !.verified = {},
             !.pending = {}, !.res = "none", !.fork = <<>>, !.sub = "none",
+            !.cache = [h \in DOMAIN s.cache |-> Miss],
             !.todo = (IF s.addMark # None THEN RemoveOps(s.addMark) \o << <<"EraseAdd", 0, 0>> >> ELSE <<>>)
-                     \o << <<"RecRm", 0, 0>> >>]
+                     \o << <<"RecRm", 0, 0>>, <<"BuildCache", 0, 0>> >>]
 
 Deliver(t, s, b) == RunAll(t, Begin(t, s, b))
 ForkSwitch(t, s, p) == RunAll(t, BeginFork(t, s, p))
@@ -199,6 +219,12 @@ HeadRecorded(t, s) == s.headRec = s.latest
 NoMarks(t, s) == s.addMark = None /\ s.rmMark = None
 ExecutedAgrees(t, s) == s.executed = UNION {TxsOf(t, b) : b \in Canon(t, s)}
 
+(* the cache never contradicts the height index, so lookups through it return the chain *)
+CacheCoherent(t, s) == \A h \in DOMAIN s.cache : s.cache[h] # Miss => s.cache[h] = s.hidx[h]
+LookupsReturnChain(t, s) ==
+  /\ \A b \in Canon(t, s) : Lookup(s, Hgt(t, b)) = b
+  /\ \A h \in DOMAIN s.hidx : h > Hgt(t, s.latest) => Lookup(s, h) = None
+
 StoreOK(t, s) == /\ HeadLinked(t, s) /\ HeightIndexAgrees(t, s) /\ NothingAboveHead(t, s)
                  /\ HeadStateDurable(t, s) /\ HeadRecorded(t, s) /\ NoMarks(t, s)
                  /\ ExecutedAgrees(t, s)
@@ -218,12 +244,12 @@ NotLower(t, new, old) ==
    run.  A call can perform several head changes (insert b, then the future child of b from
    the callback, ...): change i goes from heads[i-1] (heads[0] = the head at call start) to
    heads[i]. *)
-RECURSIVE CollectHeads(_, _, _)
-CollectHeads(t, s, acc) ==
-  IF s.todo = <<>> THEN acc
+RECURSIVE CollectHeads(_, _, _, _)
+CollectHeads(t, s, acc, k) ==
+  IF s.todo = <<>> \/ k = 0 THEN acc
   ELSE LET s2 == Step(t, s) IN
-       CollectHeads(t, s2, IF s.todo[1][1] = "PutHead" THEN Append(acc, s2.latest) ELSE acc)
-HeadsOfCall(t, s0) == <<s0.latest>> \o CollectHeads(t, s0, <<>>)
+       CollectHeads(t, s2, IF s.todo[1][1] = "PutHead" THEN Append(acc, s2.latest) ELSE acc, k - 1)
+HeadsOfCall(t, s0) == <<s0.latest>> \o CollectHeads(t, s0, <<>>, Fuel)
 
 (* the statement, literally: after a crash in the middle of a head change the head is the old
    head, the new head or a common ancestor of both *)
